@@ -138,6 +138,9 @@ func registerEth(e *Engine) {
 					}
 				}
 			}
+			if len(cells)%2 == 1 {
+				cells = append([]value{uint64('0')}, cells...)
+			}
 			if out, ok := unhexNibbleCells(fr, cells); ok {
 				return out
 			}
@@ -150,6 +153,23 @@ func registerEth(e *Engine) {
 		return bytesToCells(fromHexLenient(s))
 	})
 	e.reg(cm+"Hex2Bytes", func(fr *frame, args []value) value {
+		if ss, ok := args[0].(*SymStr); ok {
+			// hex.DecodeString ignoring the error: the decoded prefix up to the
+			// first non-hex character; an odd trailing digit is dropped.
+			cells := ss.toCells(fr)
+			if len(cells) >= 2 {
+				if b, ok := cells[1].(uint64); ok && (b == 'x' || b == 'X') {
+					return []value{}
+				}
+			}
+			if len(cells)%2 == 1 {
+				cells = cells[:len(cells)-1]
+			}
+			if out, ok := unhexNibbleCells(fr, cells); ok {
+				return out
+			}
+			abort("unmodelled", "Hex2Bytes of symbolic string %s", ss)
+		}
 		s, ok := args[0].(string)
 		if !ok {
 			abort("unmodelled", "Hex2Bytes of symbolic string")
